@@ -57,6 +57,10 @@ def gen_value(rng):
 
 TEST_ATTRS = [{}, {"str_quote_pattern_negation": True}, {"add_escaped": "\\\"=", "filter_chars": "\n"}, {"re_flag_prefix": True},
               # a native CIDR template that uses every field the renderer offers
+              # templates that render the value as a regular expression, with regex-specific escaped characters
+              {"eq_expression": "{field}=~/{regex}/", "case_sensitive_match_expression": "{field} casematch /{regex}/",
+               "startswith_expression": "{field}=~/^{regex}/", "case_sensitive_contains_expression": "{field} casecontains /{regex}/",
+               "unbound_value_str_expression": "_=~/{regex}/", "add_escaped_re": "/#"},
               {"cidr_expression": "cidrmatch({field}, {value}, {network}/{prefixlen}, {netmask})"}]
 
 
@@ -76,6 +80,10 @@ def gen_leaf(tier, rng):
             for q in (None, [".*\\s", False], ["^\\w*$", True]):
                 out.append({"cfg": {"family": "vb", "k": dict(base, qpat=q)}, "field": "f", "value": {"t": "str", "s": s, "cased": cased}})
         out.append({"cfg": {"family": "vb", "k": base}, "field": None, "value": {"t": "str", "s": s, "cased": False}})
+    for sv in ["a/b", "a#b*", "*a/b*", "x/", "/", "a.b", "a\\/b", "#*"]:
+        for cased in (False, True):
+            out.append({"cfg": {"family": "test", "attrs": TEST_ATTRS[-2]}, "field": "f", "value": {"t": "str", "s": sv, "cased": cased}})
+        out.append({"cfg": {"family": "test", "attrs": TEST_ATTRS[-2]}, "field": None, "value": {"t": "str", "s": sv, "cased": False}})
     for cidr in CIDRS:
         out.append({"cfg": {"family": "test", "attrs": TEST_ATTRS[-1]}, "field": "f", "value": {"t": "cidr", "cidr": cidr}})
         out.append({"cfg": {"family": "vb", "k": base}, "field": "f", "value": {"t": "cidr", "cidr": cidr}})
